@@ -304,7 +304,27 @@ INIT = dict(
         # cumulative sizes of the concat dataset are the index ranges: cs[c] == OFF(c+1) for c in [0, NC]
         ("c", "0", "NC", "self.dataset.cumulative_sizes[c] == OFF(c + 1)"),
     ],
-    ensures=INV_K + INV_CKPT + [
+    let={"m_dlb": "val(DLB) // B", "t_spe": "(N // D) * (D // B)"},
+    ensures=INV_K + [
+        "self.start_epoch >= 0",
+        # arithmetic chain (isolated lemmas): with drop_last an epoch is UPE full batches
+        H("implies(DLB is not None, val(DLB) == m_dlb * B and m_dlb >= 1)",
+          "implies(DLB is not None, val(DLB) % B == 0 and B <= val(DLB))", "m_dlb == val(DLB) // B", "B >= 1"),
+        "implies(DLB is not None, D == m_dlb * B and D // B == m_dlb)",
+        "implies(DL, SPE == t_spe * B)",
+        H("implies(DL, UPE == t_spe)", "implies(DL, SPE == t_spe * B)", "B >= 1"),
+        "implies(DL, SPE == UPE * B)",
+        "self.start_update == self.start_epoch * UPE",
+        "implies(start_epoch is None and start_update is None and start_sample is not None, "
+        "        DL and self.start_sample == self.start_update * B)",
+        "implies(not (start_epoch is None and start_update is None and start_sample is not None), "
+        "        self.start_sample == self.start_epoch * SPE)",
+        H("self.start_sample == self.start_epoch * SPE",
+          "implies(DL, SPE == UPE * B)", "self.start_update == self.start_epoch * UPE",
+          "implies(start_epoch is None and start_update is None and start_sample is not None, "
+          "        DL and self.start_sample == self.start_update * B)",
+          "implies(not (start_epoch is None and start_update is None and start_sample is not None), "
+          "        self.start_sample == self.start_epoch * SPE)"),
         "self.batch_size == batch_size and self.drop_last == drop_last",
         "len(self.dataset.datasets) == NC + 1 and len(self.dataset.cumulative_sizes) == NC + 1",
         "self.dataset.datasets[0] == DataOf(main_sampler)",
@@ -314,4 +334,57 @@ INIT = dict(
     ],
 )
 
-CONTRACTS = [TRAINING_LOOP, EVAL_LOOP, ITER, INIT]
+
+# ----------------------------------------------------------------------------------------------------------
+# batch sampler: cuts the (flag, idx) stream into batches exactly at the flags; its final assert is proved from
+# "the stream ends on a batch boundary" (ensures g_open == 0 of both loops)
+BATCH_ITER = dict(
+    target=f"{F}::_InterleavedBatchSampler.__iter__",
+    self={"sampler": TSeq(TTuple([BOOL, INT]), mutable=False)},
+    ghost={"g_start": (INT, "0")},
+    requires=["len(self.sampler) == 0 or self.sampler[len(self.sampler) - 1][0]"],
+    loops={0: dict(anchor="for is_full_batch, idx in self.sampler", index="i",
+                   invariant=["0 <= g_start and g_start <= i", "len(idxs) == i - g_start",
+                              "forall(lambda t: implies(g_start <= t and t < i, not self.sampler[t][0]))",
+                              "forall(lambda t: implies(0 <= t and t < len(idxs), idxs[t] == self.sampler[g_start + t][1]))",
+                              "g_start == 0 or self.sampler[g_start - 1][0]"])},
+    yields={0: dict(anchor="yield idxs",
+                    asserts=["self.sampler[i][0]", "len(value) == i + 1 - g_start",
+                             "forall(lambda t: implies(0 <= t and t < len(value), value[t] == self.sampler[g_start + t][1]))",
+                             "forall(lambda t: implies(g_start <= t and t < i, not self.sampler[t][0]))"],
+                    ghost={"g_start": "i + 1"})},
+    ensures=["g_start == len(self.sampler)"],
+)
+
+# concat dataset: index OFF-range -> (dataset number, sample of that dataset)
+GETITEM = dict(
+    target=f"{F}::_InterleavedConcatDataset.__getitem__",
+    self={"cumulative_sizes": TSeq(INT), "datasets": TSeq(DATASET)},
+    params={"idx": INT}, consts={"d": INT, "s": INT},
+    requires=[
+        "len(self.datasets) >= 1 and len(self.cumulative_sizes) == len(self.datasets)",
+        # torch ConcatDataset: running sums of the lengths, non-decreasing
+        "forall(lambda k: implies(0 <= k and k < len(self.datasets), "
+        " self.cumulative_sizes[k] == (self.cumulative_sizes[k - 1] if k > 0 else 0) + len(self.datasets[k])))",
+        "forall(lambda i, j: implies(0 <= i and i <= j and j < len(self.datasets), "
+        " self.cumulative_sizes[i] <= self.cumulative_sizes[j]))",
+        # idx is sample s of dataset d, shifted into d's index range
+        "0 <= d and d < len(self.datasets) and 0 <= s and s < len(self.datasets[d])",
+        "idx == (self.cumulative_sizes[d - 1] if d > 0 else 0) + s",
+    ],
+    ensures=["result[0] == d", "result[1] == Item(self.datasets[d], s)"],
+)
+
+COLLATOR = dict(
+    target=f"{F}::_InterleavedCollator.__call__",
+    self={"collators": TSeq(CALLABLE)},
+    params={"data": TSeq(TTuple([INT, VAL]), mutable=False)},
+    ghost={"g_ncalls": (INT, "0"), "g_called": (INT, "-1")},
+    requires=["len(data) >= 1", "0 <= data[0][0] and data[0][0] < len(self.collators)",
+              # no batch mixes datasets (C05 / PASS_ASSERTS) and __getitem__ returns the dataset number first
+              "forall(lambda t: implies(0 <= t and t < len(data), data[t][0] == data[0][0]))"],
+    asserts={0: "internal"},
+    ensures=["g_ncalls == 1 and g_called == old(data)[0][0]"],
+)
+
+CONTRACTS = [TRAINING_LOOP, EVAL_LOOP, ITER, INIT, BATCH_ITER, GETITEM, COLLATOR]
